@@ -7,6 +7,7 @@ package main
 import (
 	"fmt"
 	"math"
+	"regexp"
 	"sort"
 	"strings"
 
@@ -59,6 +60,21 @@ func genEnum(r *vh.Rand) EnumEnv {
 
 // patterns of the one form the Coq correspondence can decide: ^[ranges]{n}$
 var patterns = []string{"^[a-z]{3}$", "^[0-9A-F]{4}$", "^[a-c0-2]{2}$", "^[A-Za-z]{1}$", "^[0-9]{5}$"}
+
+// patterns Go's regexp (RE2, which CEL's matches() uses) refuses to compile; the
+// j5 compiler copies them into string.pattern unchecked
+var badPatterns = []string{"[", "(", "a)", "(?=a)", "a{2000}", "(a)\\1", "*a", "a**", "[z-a]", "\\p{Foo}"}
+
+func init() {
+	for _, p := range badPatterns {
+		if _, err := regexp.Compile(p); err == nil {
+			panic("badPatterns: " + p + " compiles")
+		}
+	}
+	for _, p := range patterns {
+		regexp.MustCompile(p)
+	}
+}
 
 // bounds the j5s text language can express: BCL has no negative integer literal
 func boundRange(k IKind) (lo, hi int64) {
@@ -218,6 +234,10 @@ func genFTy(r *vh.Rand, scope string, env EnumEnv) (FTy, string) {
 		if scope == "all" && r.Chance(12) {
 			t.SFormat = ptr(vh.Pick(r, []string{"uri", "date", "email", "uuid"}))
 		}
+		if scope == "c12" && t.Str != nil && r.Chance(7) {
+			t.Str.Pat = ptr(vh.Pick(r, badPatterns))
+			return t, "unevaluable-pattern" // compiles; the validator then fails on every message of the type
+		}
 		return t, ""
 	case 3:
 		t := FTy{Kind: TBytes}
@@ -292,6 +312,10 @@ func genFTy(r *vh.Rand, scope string, env EnumEnv) (FTy, string) {
 		if t.List != nil && t.KF == KInformal {
 			class = "compile-error"
 		}
+		if scope == "c12" && t.KF == KCustom && class == "" && r.Chance(12) {
+			t.KPat = vh.Pick(r, badPatterns)
+			class = "unevaluable-pattern"
+		}
 		return t, class
 	case 7:
 		return FTy{Kind: TFloat, F64: r.Bool(), List: genLPay(r, true, false)}, ""
@@ -354,11 +378,29 @@ func genProp04(r *vh.Rand, name string, env EnumEnv) genDecl {
 			}
 		}
 	}
+	// a string whose pattern is one of the reader's well-known patterns
+	if gd.P.T.Kind == TStr && gd.P.T.SFormat == nil && r.Chance(8) {
+		if gd.P.T.Str == nil {
+			gd.P.T.Str = &StrRules{}
+		}
+		gd.P.T.Str.Pat = ptr(vh.Pick(r, wellKnownPatterns))
+	}
+	// optional = true on an array or a map
+	if gd.P.PK != PSingle && !gd.P.Req && gd.Class == "" && !isPrimary(gd.P) && !genAST && r.Chance(6) { // (the AST path links with protodesc, which refuses proto3_optional on a repeated field)
+		gd.P.Opt = true
+	}
 	if gd.P.Desc != "" && r.Chance(10) {
-		gd.P.Desc = vh.Pick(r, []string{"# not a description", "two  spaces", "ends with space "})
+		ds := []string{"# not a description", "two  spaces", "first line\n# second\nthird"}
+		if genAST {
+			ds = append(ds, "ends with space ") // the j5s text cannot say it
+		}
+		gd.P.Desc = vh.Pick(r, ds)
 	}
 	return gd
 }
+
+// lib/j5schema wellKnownStringPatterns
+var wellKnownPatterns = []string{`^\d{4}-\d{2}-\d{2}$`, `^\d(.?\d)?$`, "^[0-9A-Za-z]{22}$"}
 
 var descWords = []string{"the", "quick", "id", "of", "a", "thing", "x2", "value.", "(unit)"}
 
@@ -375,16 +417,24 @@ func genDesc(r *vh.Rand) string {
 
 func genProp(r *vh.Rand, name string, scope string, env EnumEnv) genDecl {
 	t, class := genFTy(r, scope, env)
+	forceArray := false
+	if scope == "c12" && class == "" && r.Chance(9) {
+		// arrays of floats and of message-typed items: the items carry no rule, the
+		// array rules (counts, uniqueness) apply
+		t = FTy{Kind: vh.Pick(r, []TyKind{TFloat, TFloat, TTimestamp, TDate, TDecimal, TAny, TObject, TOneof})}
+		t.F64 = r.Bool()
+		forceArray = true
+	}
 	p := Prop{Name: name, T: t, Desc: genDesc(r)}
-	if r.Chance(30) && t.Kind != TOneof {
+	if forceArray || (r.Chance(30) && t.Kind != TOneof) {
 		p.PK = PArray
-		if r.Chance(70) {
+		if forceArray || r.Chance(70) {
 			ar := &ArrRules{Min: smallLen(r), Max: smallLen(r), Uniq: optBool(r)}
 			if ar.Min != nil && ar.Max != nil && *ar.Min > *ar.Max {
 				*ar.Min, *ar.Max = *ar.Max, *ar.Min
 			}
-			if t.Kind >= TFloat { // unique is not defined for floats (NaN) and messages
-				ar.Uniq = nil
+			if ar.Uniq != nil && *ar.Uniq && t.Kind >= TDate && class == "" {
+				class = "unevaluable-unique" // compiles; repeated.unique then fails on any non-empty list of messages
 			}
 			p.Arr = ar
 		}
@@ -548,6 +598,9 @@ func strOfLen(r *vh.Rand, n int, ascii bool) string {
 func patternStrings(r *vh.Rand, pat string) []string {
 	var class string
 	var n int
+	if !strings.HasPrefix(pat, "^[") || !strings.Contains(pat, "]{") {
+		return []string{"a", "aa", "["} // not of the class-count form (an ill-formed pattern)
+	}
 	if _, err := fmt.Sscanf(pat[strings.Index(pat, "{"):], "{%d}$", &n); err != nil {
 		return nil
 	}
@@ -713,9 +766,16 @@ func scalarValues(r *vh.Rand, t FTy) []Value {
 	case TKey:
 		return keyValues(r, t)
 	case TFloat:
-		return nil
+		var out []Value
+		for _, f := range []float64{0, math.Copysign(0, -1), 1.5, -1.5, 0.25, 3, 1e10, math.NaN(), math.Inf(1), math.Inf(-1)} {
+			if !t.F64 {
+				f = float64(float32(f))
+			}
+			out = append(out, Value{Kind: "float", F: f})
+		}
+		return out
 	}
-	return []Value{{Kind: "msg"}}
+	return []Value{{Kind: "msg", I: 0}, {Kind: "msg", I: 1}, {Kind: "msg", I: 2}}
 }
 
 func fieldValues(r *vh.Rand, p Prop) []FValue {
